@@ -310,6 +310,43 @@ func gen(c *core.Ctx) error {
 			c.Count("file-transfer")
 		}
 	}
+	// 2e. GetFile fed by a peer that is not PutFile: size fields that are negative as int64, larger or
+	// smaller than what follows, a wrong or missing end marker (model agreement only: on a plaintext
+	// stream such a peer controls everything, on an encrypted one it is the authenticated peer)
+	be8 := func(v uint64) []byte {
+		b := make([]byte, 8)
+		for i := 0; i < 8; i++ {
+			b[7-i] = byte(v >> (8 * uint(i)))
+		}
+		return b
+	}
+	hostile := [][][]byte{
+		{be8(1<<63 + 5), marker},
+		{be8(1<<64 - 1), marker},
+		{be8(3), []byte("abc"), marker},
+		{be8(3), []byte("abcd"), marker},
+		{be8(3), []byte("ab"), marker},
+		{be8(3), []byte("ab"), []byte("c"), marker},
+		{be8(0), marker},
+		{be8(0), {0, 0, 2, 0x9b}},
+		{be8(0), {0, 2, 0x9a}},
+		{be8(2)[:7], marker},
+		{be8(4), marker, marker},
+	}
+	for i, msgs := range hostile {
+		su := setups()[i%2]
+		st := ss.Step{Kind: "phase", ASends: i%2 == 0, ROps: []ss.ROp{{Op: "getfile"}}}
+		for _, m := range msgs {
+			st.SOps = append(st.SOps, ss.SOp{Op: "send", D: ss.Lit(m)})
+		}
+		cs := &ss.Case{Setup: su, Steps: []ss.Step{st}}
+		obs, term := ss.Exec(cs)
+		c.OracleCheck()
+		if obs.SetupErr == nil {
+			c.AddCase(term, &fileDesc{Case: cs})
+		}
+		c.Count("file-hostile-sender")
+	}
 	// 3. random multi-message, multi-phase histories
 	nRand := 60
 	if !c.Quick() {
